@@ -22,10 +22,51 @@ def table : List Entry := [
   ⟨"arguments(default)", .flat, .copy, .copy⟩,
   ⟨"constant(value)", .flat, .copy, .copy⟩,
   ⟨"constant(value_ints)", .flat, .freeze, .freeze⟩,
+  ⟨"Tensor(shape)", .flat, .opaque, .freeze⟩,
   ⟨"const(ndarray)", .flat, .deep, .copy⟩,
   ⟨"const(nested list)", .nest, .deep, .deep⟩,
   ⟨"_future.initializer(ndarray)", .flat, .deep, .copy⟩,
   ⟨"_future.initializer(nested list)", .nest, .deep, .deep⟩
 ]
+
+/-- Every place found by the AST scan of the core modules where a caller-provided mutable object could be
+    stored (every subclass of Attr; every __init__/__post_init__ storing a container-typed parameter or
+    field; every public function with an array parameter), with the table row that covers it
+    ("internal" = no caller-owned object can arrive there, reasons in translator/c10_tables.py). -/
+def discovered : List (String × String) := [
+  ("_attributes.AttrFloat32", "AttrFloat32"),
+  ("_attributes.AttrInt64", "AttrInt64"),
+  ("_attributes.AttrString", "AttrString"),
+  ("_attributes.AttrTensor", "AttrTensor"),
+  ("_attributes.AttrType", "AttrType"),
+  ("_attributes.AttrDtype", "AttrDtype"),
+  ("_attributes.AttrGraph", "AttrGraph"),
+  ("_attributes._AttrIterable", "internal"),
+  ("_attributes.AttrFloat32s", "AttrFloat32s"),
+  ("_attributes.AttrInt64s", "AttrInt64s"),
+  ("_attributes.AttrStrings", "AttrStrings"),
+  ("_attributes.AttrTensors", "AttrTensors"),
+  ("_attributes.Attr.__init__", "Attr.__init__"),
+  ("_attributes._Ref.__init__", "internal"),
+  ("_attributes.AttrTensor.__init__", "AttrTensor"),
+  ("_attributes._AttrIterable.__init__", "AttrInt64s"),
+  ("_attributes.AttrTensors.__init__", "AttrTensors"),
+  ("_fields.BaseVars.__post_init__", "BaseVars.variadic"),
+  ("_type_system.Tensor.__init__", "Tensor(shape)"),
+  ("_node.Node.__init__", "internal"),
+  ("_graph.Graph.__post_init__", "internal"),
+  ("_graph.arguments_dict(kwargs)", "arguments(default)"),
+  ("_graph.arguments(kwargs)", "arguments(default)"),
+  ("_graph.enum_arguments(infos)", "arguments(default)"),
+  ("_graph.initializer(arr)", "initializer"),
+  ("_future.initializer(value)", "_future.initializer(ndarray)")
+]
+
+/-- discovered sites without a row: a new class / constructor the table does not know -/
+def uncoveredSites : List String := []
+
+/-- operator-module constructor parameters (arrays / iterables) used otherwise than as an argument of an
+    Attr class, an Inputs dataclass or np.array -/
+def opsetDirectUses : List String := []
 
 end Generated.CaptureTable
